@@ -1,8 +1,9 @@
 import PdeVerif.Json
 import PdeVerif.Model.Conserve
+import PdeVerif.Model.ConserveRun
 import PdeVerif.Drv.C02
 namespace PdeVerif.Drv.C05
-open Lean PdeVerif PdeVerif.Stencil PdeVerif.Conserve PdeVerif.BC
+open Lean PdeVerif PdeVerif.Stencil PdeVerif.Conserve PdeVerif.BC PdeVerif.Solvers
 open PdeVerif.Drv.C02 (arrFn parseCond allIdx)
 
 /-- {"cls","shape","lo","dx","op":"laplace"|"divergence","method","conservative","rank","dim",
@@ -59,6 +60,7 @@ def integral (j : Json) : Except String Json := do
   | "cart", "divergence", 3 => pure (jQ (intCart3Divergence mth d0 d1 d2 a n m l))
   | "sph", "divergence", _ => pure (jQ (intSphDivergence cons mth r d0 a n))
   | "polar", "divergence", _ => pure (jQ (intPolarDivergence r d0 a n))
+  | "cyl", "divergence", _ => pure (jQ (intCylDivergence r d0 d1 a n m))
   | _, _, _ => throw s!"integral of {op} not modelled for {cls}/{shape.length}"
 
 def parseMethod (j : Json) : Except String Method :=
@@ -118,5 +120,53 @@ def cons (j : Json) : Except String Json := do
     | _, _, _ => throw s!"no zero-sum theorem for {op} on {cls}/{shape.length}")
   pure (Json.mkObj [("ghost", jQs ((allIdx fshape).map a)), ("integral", jQ v)])
 
-def handlers : List (String × Handler) := [("c05.integral", integral), ("c05.cons", cons)]
+/-- The term the run theorems of `Props/C05d.lean` are about, evaluated at `Rat`:
+{"cls","shape","lo","dx","per":[bool..],"scheme":"euler"|"rk4"|"implicit"|"crank-nicolson" (+ "maxiter","maxerror","alpha"),"eq":"diffusion"|"cahn-hilliard"|"two-fields" (data = cells of `a`, then of `c`; `twoFieldRate`, mass of `c`),"coef": D | γ | κ,
+ "dt","ts","te","data":[values of the valid cells, row-major]}
+ -> {"state": `state.data` after `solverRuns (validCells shape) solver (consRate …) dt te (dt/10^6) 16 ts data 0` (the controller loop
+     around `solverRun`), "t": final time, "steps": total number of steps, "mass0"/"mass1": `cellMass` (integral without the factor pi) before / after} -/
+def run (j : Json) : Except String Json := do
+  let clsS ← fldS j "cls"
+  let shape ← fldNs j "shape"
+  let lo ← fldQs j "lo"
+  let dx ← fldQs j "dx"
+  let per ← (do getL getB (← fld j "per"))
+  let schS ← fldS j "scheme"
+  let eqS ← fldS j "eq"
+  let coef ← fldQ j "coef"
+  let dt ← fldQ j "dt"
+  let ts ← fldQ j "ts"
+  let te ← fldQ j "te"
+  let data ← fldQs j "data"
+  let cls ← (match clsS with
+    | "cart" => pure GridCls.cart
+    | "polar" => pure GridCls.polar
+    | "sph" => pure GridCls.sph
+    | "cyl" => pure GridCls.cyl
+    | _ => throw s!"grid class {clsS}")
+  let maxiter := (match fldOpt j "maxiter" with | some v => (getN v).toOption.getD 100 | none => 100)
+  let maxerror ← (match fldOpt j "maxerror" with | some v => getQ v | none => pure (1 / 10000 : Rat))
+  let alpha ← (match fldOpt j "alpha" with | some v => getQ v | none => pure (0 : Rat))
+  let sol ← (match schS with
+    | "euler" => pure (RunSolver.explicit RunScheme.euler)
+    | "rk4" => pure (RunSolver.explicit RunScheme.rk4)
+    | "implicit" => pure (RunSolver.implicit maxiter maxerror)
+    | "crank-nicolson" => pure (RunSolver.crankNicolson alpha maxiter maxerror)
+    | _ => throw s!"scheme {schS}")
+  let l0 : Rat := lo.getD 0 0
+  let cells := if eqS == "two-fields" then cells2 shape else validCells shape
+  if data.length ≠ cells.length then throw "data does not match the shape"
+  let rate ← (match eqS with
+    | "diffusion" => pure (consRate cls shape l0 dx per (muDiffusion coef))
+    | "cahn-hilliard" => pure (consRate cls shape l0 dx per (muCahnHilliard cls l0 dx (consFaces shape false dx per) coef))
+    | "two-fields" => pure (twoFieldRate cls shape l0 dx per coef)
+    | _ => throw s!"equation {eqS}")
+  let mass : List Rat → Rat := if eqS == "two-fields" then cellMass2 cls shape l0 dx else cellMass cls shape l0 dx
+  match solverRuns cells sol rate dt te (dt / 1000000) 16 ts data 0 with
+  | none => throw "step failed"
+  | some (s', tr, steps) =>
+    pure (Json.mkObj [("state", jQs s'), ("t", jQ tr), ("steps", Json.num steps),
+      ("mass0", jQ (mass data)), ("mass1", jQ (mass s'))])
+
+def handlers : List (String × Handler) := [("c05.integral", integral), ("c05.cons", cons), ("c05.run", run)]
 end PdeVerif.Drv.C05
